@@ -145,7 +145,11 @@ impl Prop for C14 {
     out
   }
 
+  /// Miri stage: the kernels this property's constructs dispatch to, driven directly (crate /verif/miri) under the undefined-behaviour interpreter
+  fn post_stage(&self, tier: Tier, seed: u64, _self_exe: &str) -> Vec<(Case, Outcome)> { crate::fw::miri_stage("C14", tier, seed, if tier == Tier::Quick { 1 } else { 1 }) }
+
   fn run(&self, case: &Case, _flavour: &str) -> Outcome {
+    if case.cell.starts_with("stage=miri") { return crate::fw::miri_run_one(case); }
     let mode = case.input["mode"].as_str().unwrap();
     let getv = |name: &str| -> Vec<usize> { serde_json::from_value(case.input[name].clone()).unwrap_or_default() };
     let mut s = Sess::new();
